@@ -50,7 +50,7 @@ def _in_family(m, fi: FuncInfo) -> bool:
 def run(ctx: Ctx):
   m = model(ctx)
   eng = m.eng
-  for r in (r1, r2, r3, r4, r5, r6, r7, r8, r9, r10, r11, r13, r14):
+  for r in (r1, r2, r3, r4, r5, r6, r7, r8, r9, r10, r11, r13, r14, r16):
     ctx.guard(r, m)
   from mlmverif.props import c13
   ctx.include('R-C04-15', '"end-of-stream carrying all producers\' return values":'
@@ -464,7 +464,94 @@ def r6(ctx: Ctx, m):
       ctx.fail(rule, se, ext[0].ast,
                'return values are not recorded under the state lock before'
                ' consumers are woken (held=%s, before_notify=%s)' % (held, before))
-  ctx.floor(rule, 2)
+    # the values are recorded verbatim: whatever a producer returned (0, False, [],
+    # None) is a return value; no selection, slicing or conversion of the elements
+    va = se.node.args.vararg.arg if se.node.args.vararg else None
+    for nd in ext:
+      for x in cfgm.node_exprs(nd):
+        if not (isinstance(x, ast.Call) and isinstance(x.func, ast.Attribute) and x.func.attr in (
+            'extend', 'append') and isinstance(x.func.value, ast.Attribute) and x.func.value.attr == '_returned'):
+          continue
+        a = x.args[0] if x.args else None
+        while isinstance(a, ast.Call) and unparse(a.func) in ('list', 'tuple') and len(a.args) == 1:
+          a = a.args[0]
+        whole = isinstance(a, ast.Name) and a.id == va and x.func.attr == 'extend'
+        if whole:
+          ctx.ok(rule, se, f'_returned.extend({va}) records every value as given', x)
+        else:
+          ctx.fail(rule, se, '_stop_enqueue: every return value is recorded as given',
+                   f'`{unparse(x)[:70]}` does not record the producer\'s return values'
+                   f' `*{va}` whole: a selection/conversion of the elements (e.g. dropping'
+                   ' falsy ones) loses legitimate return values such as 0, False, [] or'
+                   ' () — end-of-stream then carries fewer values than producers returned',
+                   node=x)
+  ctx.floor(rule, 3)
+
+
+_EXC_PAIRS = {'put_nowait': ('queue.Full', 'asyncio.QueueFull'),
+              'get_nowait': ('queue.Empty', 'asyncio.QueueEmpty')}
+
+
+def r16(ctx: Ctx, m):
+  rule = 'R-C04-16'
+  ctx.rule(rule, 'both buffer kinds: the queue family builds its buffer from the'
+           ' `queue` module (thread queues) in one class and from `asyncio` in a'
+           ' subclass, so every try around `self._queue.put_nowait/get_nowait` that'
+           ' treats "buffer full/empty" as a state to wait on must catch BOTH'
+           ' modules\' exception (queue.Full and asyncio.QueueFull, queue.Empty and'
+           ' asyncio.QueueEmpty): catching one only turns a full asyncio buffer into'
+           ' a producer failure (remaining elements never enqueued) or an empty one'
+           ' into a consumer error')
+  # which buffer kinds does the family construct?
+  kinds = set()
+  for fi in ctx.repo.all_functions():
+    if not _in_family(m, fi):
+      continue
+    for x in walk_no_nested(fi.node):
+      if isinstance(x, ast.Return) and isinstance(x.value, ast.Call):
+        f = unparse(x.value.func)
+        if f in ('queue.Queue', 'queue.SimpleQueue'):
+          kinds.add('queue')
+        elif f == 'asyncio.Queue':
+          kinds.add('asyncio')
+  if kinds != {'queue', 'asyncio'}:
+    raise AnalysisError(f'{rule}: the queue family no longer builds both buffer kinds (found {sorted(kinds)})')
+  n = 0
+  for fi in ctx.repo.all_functions():
+    if not _in_family(m, fi):
+      continue
+    for t in walk_no_nested(fi.node):
+      if not isinstance(t, ast.Try):
+        continue
+      ops = {c.func.attr for b in t.body for c in ast.walk(b) if isinstance(c, ast.Call) and isinstance(
+          c.func, ast.Attribute) and c.func.attr in _EXC_PAIRS and unparse(c.func.value) in ('self._queue', 'self')}
+      for op in sorted(ops):
+        pair = _EXC_PAIRS[op]
+        caught = set()
+        broad = False
+        for h in t.handlers:
+          types = [h.type] if h.type is not None and not isinstance(h.type, ast.Tuple) else (
+              h.type.elts if h.type is not None else [])
+          for ty in types:
+            caught.add(unparse(ty))
+          if h.type is None or any(unparse(ty) in ('Exception', 'BaseException') for ty in types):
+            # a broad handler placed first would also take them, but then the
+            # "wait for space/data" branch is not what handles them
+            pass
+        if not (caught & set(pair)):
+          continue  # this try does not treat the state as a condition to handle
+        n += 1
+        if set(pair) <= caught:
+          ctx.ok(rule, fi, f'{op}: catches {pair[0]} and {pair[1]}', t)
+        else:
+          missing = sorted(set(pair) - caught)
+          ctx.fail(rule, fi, f'{fi.qualname}: handler of self._queue.{op} catches both {pair[0]} and {pair[1]}',
+                   f'the try around self._queue.{op}() catches {sorted(caught & set(pair))} but not'
+                   f' {missing}: with the asyncio-backed buffer (AsyncIteratorQueue) a'
+                   f' {"full" if op == "put_nowait" else "empty"} buffer escapes as an error instead of'
+                   ' being waited on — the producer fails and the rest of its elements are never'
+                   ' delivered', node=t)
+  ctx.floor(rule, 4, n)
 
 
 def r7(ctx: Ctx, m):
@@ -1053,6 +1140,16 @@ VARIANTS = [
       '    if not self._max_enqueuer:\n      return False\n    return self._enqueue_start == self._enqueue_stop == self._max_enqueuer',
       '    remaining = self._enqueue_start - self._enqueue_stop\n    return not remaining and self._enqueue_start >= self._max_enqueuer',
       'R-C04-13'),
+    B('put-ignores-asyncio-full', 'utils/iter_utils.py',
+      '        except (queue.Full, asyncio.QueueFull) as e:', '        except queue.Full as e:', 'R-C04-16'),
+    OK('put-full-handler-order-swapped', 'utils/iter_utils.py',
+       '        except (queue.Full, asyncio.QueueFull) as e:', '        except (asyncio.QueueFull, queue.Full) as e:'),
+    B('returned-values-filtered-by-truthiness', 'utils/iter_utils.py',
+      '      self._returned.extend(values)', '      self._returned.extend(value for value in values if value)', 'R-C04-6'),
+    B('returned-values-none-dropped', 'utils/iter_utils.py',
+      '      self._returned.extend(values)', '      self._returned.extend(v for v in values if v is not None)', 'R-C04-6'),
+    OK('returned-values-as-list', 'utils/iter_utils.py',
+       '      self._returned.extend(values)', '      self._returned.extend(list(values))'),
     OK('enqueue-done-single-expression', _F,
        '    if not self._max_enqueuer:\n      return False\n    return self._enqueue_start == self._enqueue_stop == self._max_enqueuer',
        '    return bool(self._max_enqueuer) and self._enqueue_start == self._enqueue_stop == self._max_enqueuer'),
